@@ -40,6 +40,32 @@ def note(s):
 
 
 # ----------------------------------------------------------------------------- text helpers
+def splice_lines(s):
+    """translation phase 2: a backslash immediately followed by a newline (gcc also accepts blanks in between) joins the two
+    physical lines BEFORE comments are recognised -- so a // comment that ends in a backslash swallows the next line.  The removed
+    newlines are re-inserted after the joined line so that line numbers stay the same."""
+    out = []
+    pending = 0
+    i, n = 0, len(s)
+    while i < n:
+        c = s[i]
+        if c == '\\':
+            j = i + 1
+            while j < n and s[j] in ' \t\r':
+                j += 1
+            if j < n and s[j] == '\n':
+                pending += 1
+                i = j + 1
+                continue
+        if c == '\n' and pending:
+            out.append('\n' * (1 + pending))
+            pending = 0
+        else:
+            out.append(c)
+        i += 1
+    return ''.join(out)
+
+
 def blank_comments(s):
     """replace comments by spaces (newlines kept) outside string/char literals"""
     out = []
@@ -628,7 +654,7 @@ class Gen:
 
 # ----------------------------------------------------------------------------- driver
 def convert(text):
-    text = blank_comments(text)
+    text = blank_comments(splice_lines(text))
     # the file's own asm/inline re-definitions: asm lines dropped (nothing is left for them to apply to)
     text = re.sub(r'^[ \t]*#[ \t]*(define|undef)[ \t]+asm\b[^\n]*', '', text, flags=re.M)
     # locate asm statements
